@@ -408,6 +408,17 @@ type targetInfo struct {
 	Dependencies map[string]string `json:"dependencies,omitempty"`
 	Data         string            `json:"stamp,omitempty"`
 	Rerun        bool              `json:"rerun,omitempty"`
+	// Runs counts the successful executions of a function target. It is part of the stamp seen by
+	// dependents, so that an execution in one build is visible to dependents built later.
+	Runs uint64 `json:"runs,omitempty"`
+}
+
+// stamp returns the value that dependents record for the target.
+func (info targetInfo) stamp() string {
+	if info.Runs == 0 {
+		return info.Data
+	}
+	return fmt.Sprintf("%s@%d", info.Data, info.Runs)
 }
 
 func (proj *Project) targetInfoPath(l *label.Label) string {
